@@ -482,6 +482,10 @@ func runC14(seed int64, n int, tier string, outDir string) (*Report, error) {
 	if err := rep.AddCases(cw3); err != nil {
 		return nil, err
 	}
+	// the wide grammar: bytes >= 0x80 and escapes in host, path and query, Unicode case folding (c14u.go)
+	if err := c14Wide(g, rep, outDir, n); err != nil {
+		return nil, err
+	}
 	return rep, nil
 }
 
